@@ -18,7 +18,7 @@ RULE = ("exhaustive: every sequence of length <= 3 (quick) / 4 (thorough) over a
         "terminator on the line, terminator lines, macro start, '@') x ignore_blank_lines x {ios,nxos}; random: lines drawn from a 38-line pool (tabs, NBSP, non-ASCII, braces, "
         "regex metacharacters, unterminated banners/macros, nested banner starts) and structured banner/macro configs, x syntax in {ios,nxos,iosxr,asa} x ignore_blank_lines "
         "x factory x comment_delimiters. Observed: get_text(), [o.linenum], whether the constructor raised. non-trivial = a blank line inside a body and one outside, or an "
-        "unterminated banner/macro; distinct by (syntax class, ibl, line pattern).")
+        "unterminated banner/macro; distinct by (syntax class, ibl, line pattern). fac: lines the typed-model factories claim (one decorated line per is_object_for trigger, braces included), each config with the factory off and on.")
 EXHAUSTIVE = {"quick": True, "thorough": True}
 TRUSTED = ["Coq 8.16.1 kernel incl. vm_compute (no native_compute)",
            "hand model coq/Model/Parse.v (single forward scan equivalent to the code's per-start forward walks; ignore_blank_lines filter; bootstrap twice), tied by this correspondence",
